@@ -191,6 +191,28 @@ fn one_index(rep: &mut Report, rec: &mut Rec, len: usize, n: i64) {
     if (-9..=9).contains(&n) {
         ragged_rows(rep, rec, len, n);
     }
+    if len > 0 && len <= 40 {
+        // the index applied to the result of a stable sort with tied keys: position n of THAT order
+        let doc = Value::Array((0..len).map(|i| json!({"id": i, "k": (i * 7 + 3) % 4})).collect());
+        let mut order: Vec<usize> = (0..len).collect();
+        order.sort_by_key(|i| (i * 7 + 3) % 4);
+        let k = if n < 0 { len as i64 + n } else { n };
+        let want = if k >= 0 && (k as usize) < len { order[k as usize].to_string() } else { "N".to_string() };
+        for text in [format!("sort_by(@, &k)[{}].id", n), format!("sort_by(@, &k) | [{}].id", n), format!("(sort_by(@, &k))[{}].id", n)] {
+            rep.evaluations += 1;
+            let got = guarded(|| jmespath::compile(&text).and_then(|e| e.search(rcvar_of(&doc))));
+            let shown = match &got {
+                Ok(Ok(v)) if v.is_null() => "N".to_string(),
+                Ok(Ok(v)) => v.to_string(),
+                other => format!("{:?}", other.as_ref().map(|r| r.as_ref().map(|v| v.to_string()).map_err(|e| e.to_string()))),
+            };
+            if shown == want {
+                rep.count("agree_index_into_sorted");
+            } else {
+                rep.violation("C07/index-into-a-stable-sort-differs-from-rule", json!({"expression": text, "len": len, "expected_id": want, "got": shown}));
+            }
+        }
+    }
 }
 
 /// The index applied to every row of a table whose rows have different lengths — directly (a
